@@ -76,7 +76,8 @@ def run(index, rep, tier):
               "escape_nexus_token wraps in ' and joins the '-split pieces with ''", "escape_nexus_token no longer doubles embedded single quotes inside a single-quoted token")
     # tokenizer honours the flag: the un-doubling branch exists
     tk = index.function("dendropy.dataio.tokenizer.Tokenizer.__next__")
-    ok = any(isinstance(n, ast.If) and norm(n.test) == "self.escape_quote_by_doubling" for n in ast.walk(tk.node))
+    ok = any(isinstance(n, ast.If) and norm(n.test) == "self.escape_quote_by_doubling"
+             for m in index.methods_of("dendropy.dataio.tokenizer.Tokenizer") for n in ast.walk(m.node))
     rep.check(ok, "R02.2", tk.qualname, "un-doubling branch", fn_where(tk), "Tokenizer.__next__ un-doubles quotes when escape_quote_by_doubling is set",
               "Tokenizer.__next__ no longer tests escape_quote_by_doubling")
 
